@@ -585,11 +585,14 @@ package iscp
 //@   ensures[C05,C02] u.totalDataPoints == old(u.totalDataPoints)
 //@   ensures[C05,C02] u.sent == old(u.sent)
 //@   assert[C05] call retry.Do: u.wireConn == newConn
+// C09: the chunk sender goroutines (started by flush, they outlive run) read u.wireConn under u.mu:
+// the watcher installs the new wire connection under that lock too
+//@   assert[C09] write Upstream.wireConn: held(u.mu)
 //@   assert[C05] call closeWithError: failed && arg2 == resErr
 //@   ensures[C05] imp(failed, result != nil && closedWith != nil)
 //@ func (*Upstream).resume$1
 //@   props C02 C05
-//@   assert call SendUpstreamResumeRequest: arg2 != nil && arg2.StreamID == u.ID && arg0 == u.wireConn
+//@   assert call SendUpstreamResumeRequest: arg2 != nil && arg2.StreamID == u.ID && arg0 == newConn
 
 // C05: a downstream resumes under its original stream id and its original alias, on the
 // connection's current wire connection; a refused or cut resume closes the stream with that error
